@@ -867,9 +867,14 @@ end Examples
   * a node the open context's automaton accepts is placed directly below it — no wrapper is opened, no filler
     inserted, pending contexts above are closed first — by `insert_node` (`roundtrip_insert_partial`) and `enter`
     (`roundtrip_enter_partial`).
-  Missing for the full statement: the same for the close of an element (`sync` + `finish` of the context: `lastOk`,
-  `fillNodes_validEnd`), the induction over the document that chains these steps, the mark bookkeeping (pending / active
-  marks against the nesting order of `serialize_fragment`), and `toDomList (serializeDoc …)` = the canonical DOM of `doc`. -/
+  * an element read back as a non-leaf node starts with `enter` directly below the open context and leaves the walk's
+    invariant one level deeper (`roundtrip_open_partial`); its close finds the node's context by identity and steps out of
+    it (`roundtrip_close_partial`); the finish of a context whose content is complete (`validEnd`), normalised and does not
+    end in strippable white space (`lastOk`) gives exactly the node (`roundtrip_finish_partial`).
+  Missing for the full statement: the induction over the document that chains these steps (with `match_tag` picking the
+  first candidate, `firstRule`), leaves, the transparent inner element of `["pre", ["code", 0]]`, the mark bookkeeping
+  (pending / active marks against the nesting order of `serialize_fragment`), and
+  `toDomList (serializeDoc …)` = the canonical DOM of `doc`. -/
 
 open PM PM.RoundTrip PM.FromDom in
 /-- **text survives** (stage i of the round trip): inside an open context `cx` (type `t`, automaton state `q`, nothing
@@ -910,6 +915,40 @@ theorem roundtrip_enter_partial (S : Schema) (wsPre : TypeId → Bool) (st : PSt
                                        { NodeCtx.new (some ty) attrs [] [] true (wsOptionsFor (wsPre ty) pw cx.opts) with uid := st.fresh }],
                      open_ := base.length + 1, fresh := st.fresh + 1 }, true) :=
   enter_plain S wsPre st base cx ext c t q q' ty attrs pw a hn ho hp hs hm ha
+
+open PM PM.RoundTrip PM.FromDom in
+/-- **an element read back as a node opens directly**: `add_element_by_rule` for a rule naming the non-leaf type `tc` that
+    the automaton of the open context accepts calls `enter`, which opens `tc` directly below; the walk goes on one level
+    deeper with a fresh context that has nothing pending, and remembers that context's identity for `sync` -/
+theorem roundtrip_open_partial (P : DomWalk.Parser) (w : DomWalk.WState) (base : List NodeCtx) (cx : NodeCtx) (ext : List NodeCtx)
+    (c : List Node) (t : TypeId) (q q' : Nat) (tc : TypeId) (ra : Option Attrs) (a : Attrs) (tag : String) (r : DomWalk.TagRule)
+    (hi : Inv P.S w base cx ext c) (hp : Plain cx t q) (hr : r.node = some (some tc)) (hnl : (P.S.nodeType tc).isLeaf = false)
+    (hm : (P.S.dfa t).matchType q tc = some q') (ha : computeAttrs (P.S.nodeType tc).attrs (ra.getD []) = .ok a) :
+    ∃ w1, DomWalk.ruleOpen P w tag r ra = .ok (w1, ⟨true, none, false, w.st.fresh⟩) ∧
+      Inv P.S w1 (base ++ [{ cx with content := c, mtch := some q' }]) (newCtx P tc ra r.preserveWs cx.opts w.st.fresh) [] [] ∧
+      Plain (newCtx P tc ra r.preserveWs cx.opts w.st.fresh) tc 0 :=
+  ⟨_, ruleOpen_node P w base cx ext c t q q' tc ra a tag r hi hp hr hnl hm ha,
+    (afterEnter_inv P w base cx ext c q' tc ra r.preserveWs (.enter tc ra r.preserveWs) hi).1,
+    (afterEnter_inv P w base cx ext c q' tc ra r.preserveWs (.enter tc ra r.preserveWs) hi).2⟩
+
+open PM PM.RoundTrip PM.FromDom in
+/-- **the close of such an element**: `sync(start_in)` finds the node's context by its identity at the open depth, and the
+    walk steps out of it; the context itself stays until the next `close_extra` -/
+theorem roundtrip_close_partial (P : DomWalk.Parser) (w : DomWalk.WState) (pre : List NodeCtx) (N : NodeCtx) (ext : List NodeCtx)
+    (hn : w.st.nodes = pre ++ N :: ext) (ho : w.st.open_ = pre.length) (hpre : ∀ x ∈ pre, (x.uid == N.uid) = false) :
+    ∃ w', DomWalk.ruleClose P w ⟨true, none, false, N.uid⟩ = .ok w' ∧ w'.st.nodes = w.st.nodes ∧ w'.st.open_ = pre.length - 1 ∧
+      w'.st.fresh = w.st.fresh :=
+  ruleClose_sync P w pre N ext hn ho hpre
+
+open PM PM.RoundTrip PM.FromDom in
+/-- **the finish of a complete context is the node**: content at a valid end of the automaton, normalised, not ending in a
+    white space `finish` would strip (`lastOk`), attributes the rule supplied computing to `a`: no filler, no strip, no merge -/
+theorem roundtrip_finish_partial (S : Schema) (cx : NodeCtx) (t : TypeId) (q : Nat) (a : Attrs)
+    (hm : cx.mtch = some q) (hty : cx.ty = some t) (hv : (S.dfa t).validEnd q = true)
+    (ha : computeAttrs (S.nodeType t).attrs (cx.attrs.getD []) = .ok a) (hmk : cx.marks = [])
+    (hnl : (S.nodeType t).isLeaf = false) (hlast : lastOk cx.opts cx.content = true) (hnorm : fnorm cx.content = true) :
+    cx.finishNode S false t = .ok (.elem t a [] cx.content) :=
+  finishNode_plain S cx t q a hm hty hv ha hmk hnl hlast hnorm
 
 namespace RoundTripExamples
 open PM.RoundTrip PM.FromDom
